@@ -355,6 +355,30 @@ func runC18(c *fw.Ctx, idx int) fw.Result {
 	if sp.cmd == "variants-stdin" && cin == nil {
 		cin = []byte{}
 	}
+	// the same corrupted run with the output going to a file instead of stdout: the exit
+	// status must not depend on the output destination
+	if sp.cmd != "topa" {
+		outFile := filepath.Join(d, "result.out")
+		cf := append(append([]string{}, ca...), "-o", outFile)
+		bf := fw.RunBin(bin, cf, cin, env, "", 20*time.Second)
+		res.Evals++
+		res.Count("faults_injected_with_output_file", 1)
+		if !bf.TimedOut && bf.Exit == 0 {
+			ob, _ := os.ReadFile(outFile)
+			okHeaderless := sp.kind == "headerless-sam" && sp.cmd != "toma" && string(ob) == string(base.Stdout)
+			if !okHeaderless {
+				cls := sp.cmd + ":" + sp.kind
+				if sp.file != "" {
+					cls += ":" + sp.file
+				}
+				wf0 := map[string]string{"stderr.txt": clipStr(string(bf.Stderr), 20000), "output_file.txt": clipStr(string(ob), 4000)}
+				for k, v := range files {
+					wf0["input_"+k+ext[k]] = v
+				}
+				res.Fail(cls+":accepted-with-output-file", fmt.Sprintf("%v: exit status 0 on an input made invalid by %q when the output goes to a file (%d bytes written)", cf, sp.kind, len(ob)), wf0, cf)
+			}
+		}
+	}
 	br := fw.RunBin(bin, ca, cin, env, "", 20*time.Second)
 	res.Evals++
 	res.Count("faults_injected", 1)
